@@ -22,7 +22,18 @@ pub enum TOp {
     GuestPage(u32),
     LegacyLayout,
     /// size is 2^size_log2 for legacy, `size` verbatim for modern
-    QueueSet { q: u16, size_log2: u8, size: u32, d: u64, a: u64, u: u64 },
+    QueueSet {
+        q: u16,
+        size_log2: u8,
+        size: u32,
+        d: u64,
+        a: u64,
+        u: u64,
+        /// legacy only: a layout-consistent, page-aligned triple at or above 2^44, whose page frame
+        /// number does not fit the 32-bit QueuePFN register
+        #[serde(default)]
+        high: bool,
+    },
     QueueUnset(u16),
     QueueUsed(u16),
     AckInt(u32),
@@ -74,8 +85,8 @@ fn apply<T: Transport>(t: &mut T, op: &TOp, version: u32) -> Res {
             Res::None
         }
         TOp::LegacyLayout => Res::Bool(t.requires_legacy_layout()),
-        TOp::QueueSet { q, size_log2, size, d, a, u } => {
-            let (s, d, a, u) = qs_args(version, *size_log2, *size, *d, *a, *u);
+        TOp::QueueSet { q, size_log2, size, d, a, u, high } => {
+            let (s, d, a, u) = qs_args(version, *size_log2, *size, *d, *a, *u, *high);
             t.queue_set(*q, s, d, a, u);
             Res::None
         }
@@ -92,8 +103,14 @@ fn apply<T: Transport>(t: &mut T, op: &TOp, version: u32) -> Res {
 }
 
 /// The arguments actually passed for a QueueSet op.
-fn qs_args(version: u32, size_log2: u8, size: u32, d: u64, a: u64, u: u64) -> (u32, u64, u64, u64) {
-    if version == 1 {
+fn qs_args(version: u32, size_log2: u8, size: u32, d: u64, a: u64, u: u64, high: bool) -> (u32, u64, u64, u64) {
+    if version == 1 && high {
+        let s = 1u32 << (size_log2 % 16);
+        let d = (d | 1 << 44) & 0x7fff_ffff_ffff_f000;
+        let a = d + 16 * s as u64;
+        let u = (a + 6 + 2 * s as u64 + 4095) & !4095;
+        (s, d, a, u)
+    } else if version == 1 {
         // the legacy transport documents (asserts) a layout-consistent triple below 2^44
         let s = 1u32 << (size_log2 % 16);
         let d = (d & 0x0000_0fff_ffff_f000).max(0x1000);
@@ -214,8 +231,8 @@ fn check_op(c: &TCase, op: &TOp, tr: &[(bool, u64, u8, u64)], res: &Res, pre: &P
                 return Err(format!("requires_legacy_layout() = {:?} on a version {} device", res, c.version));
             }
         }
-        TOp::QueueSet { q, size_log2, size, d, a, u } => {
-            let (s, d, a, u) = qs_args(c.version, *size_log2, *size, *d, *a, *u);
+        TOp::QueueSet { q, size_log2, size, d, a, u, high } => {
+            let (s, d, a, u) = qs_args(c.version, *size_log2, *size, *d, *a, *u, *high);
             first_sel(*q)?;
             let regs = post.0.get(&(*q as u32)).cloned().unwrap_or_default();
             if legacy {
@@ -413,6 +430,15 @@ fn run_on<T: Transport>(c: &TCase, mk: impl FnOnce(MmioTransport<'static>) -> T,
             return Err(format!("op #{} {:?}: {}", i, op, f.msg));
         }
         if let Res::Panic(m) = &res {
+            // A legacy queue address whose page frame number does not fit QueuePFN cannot be
+            // programmed: refusing by panic is fine as long as the device was not touched.
+            if c.version == 1 && matches!(op, TOp::QueueSet { high: true, .. }) {
+                if tr.iter().any(|a| a.0) {
+                    return Err(format!("op #{} {:?} panicked ({}) after writing to the device: {:x?}", i, op, m, tr));
+                }
+                out.push((tr, res));
+                continue;
+            }
             return Err(format!("op #{} {:?} panicked: {}", i, op, m));
         }
         if oracle {
@@ -598,8 +624,8 @@ fn top() -> impl Strategy<Value = TOp> {
         1 => Just(TOp::GetStatus),
         2 => prop_oneof![Just(1u32), Just(3), Just(11), Just(15), Just(0), any::<u32>()].prop_map(TOp::SetStatus),
         1 => Just(TOp::LegacyLayout),
-        6 => (qidx(), 0u8..16, prop_oneof![(0u32..16).prop_map(|l| 1 << l), any::<u32>()], addr(), addr(), addr())
-            .prop_map(|(q, size_log2, size, d, a, u)| TOp::QueueSet { q, size_log2, size, d, a, u }),
+        6 => (qidx(), 0u8..16, prop_oneof![(0u32..16).prop_map(|l| 1 << l), any::<u32>()], addr(), addr(), addr(), prop::bool::weighted(0.1))
+            .prop_map(|(q, size_log2, size, d, a, u, high)| TOp::QueueSet { q, size_log2, size, d, a, u, high }),
         3 => qidx().prop_map(TOp::QueueUnset),
         3 => qidx().prop_map(TOp::QueueUsed),
         2 => prop_oneof![0u32..=3, any::<u32>()].prop_map(TOp::AckInt),
@@ -661,7 +687,7 @@ pub fn run(ctx: &Ctx) -> Report {
         failure,
         info: PartInfo {
             level: "exploration",
-            rule: "proptest sequences (<=40) of every Transport operation with generated arguments (queue index incl. 65535, sizes, 64-bit address triples with independent high/low words, feature words, status values, interrupt status, config accesses) on emulated legacy and modern virtio-mmio devices behind safe-mmio's custom backend; per operation the ordered register trace is checked against the access script / constraints derived from VirtIO 1.2 4.2.2-4.2.4 and the device model's resulting state; the same sequence through SomeTransport::Mmio must give an identical trace; plus generated probe headers (magic, version, device id, region size). Non-trivial = sequence touching >=2 queues with a queue address whose high and low words differ, or any probe case; distinct = (version, op kinds and queue indices) / probe condition classes.",
+            rule: "proptest sequences (<=40) of every Transport operation with generated arguments (queue index incl. 65535, sizes, 64-bit address triples with independent high/low words, legacy triples whose page frame number does not fit QueuePFN (must be refused without touching the device), feature words, status values, interrupt status, config accesses) on emulated legacy and modern virtio-mmio devices behind safe-mmio's custom backend; per operation the ordered register trace is checked against the access script / constraints derived from VirtIO 1.2 4.2.2-4.2.4 and the device model's resulting state; the same sequence through SomeTransport::Mmio must give an identical trace; plus generated probe headers (magic, version, device id, region size). Non-trivial = sequence touching >=2 queues with a queue address whose high and low words differ, or any probe case; distinct = (version, op kinds and queue indices) / probe condition classes.",
             assumptions: vec!["all MMIO of the crate goes through safe-mmio (an access bypassing it would fault: the emulated region has no memory behind it)".into()],
             exhaustive: false,
             extra: json!({}),
